@@ -250,6 +250,8 @@ CHECKS["C18"] = dict(
 )
 ENGINES.append(dict(name="E-CLI", path="harness/cli.cpp", serves_properties=["C18", "C03"], kind_free_text="exhaustive argument-tuple enumeration on the real CLI binaries"))
 CHECKS["C03"]["stages"].append(dict(harness="cli", variant="asan", args=["--mode", "tools"], tools=_TOOLS, prefix="tools_"))
+CHECKS["C03"]["stages"].append(dict(harness="rewrite", variant="asan", args=["--mode", "render"], prefix="render_"))
+CHECKS["C03"]["stages"].append(dict(kind="py", harness="valgrind_render", prefix="valgrind_", replayable=False))
 
 CHECKS["C20"] = dict(
     level="model_checking", engine="E-SCHED",
